@@ -176,7 +176,13 @@ package ast
 //@   site (*Tasks).Set#1 requires arg0 == t1 && arg1 == taskName && arg2 == task                                        [C08]
 //@   site (*Tasks).Set#1 requires dupFree                                     -- never overwrite an existing task       [C08,C09]
 //@   site (*Tasks).Set#1 requires !excluded                                   -- excluded tasks are not merged          [C08]
-//@   site (*Tasks).Set#1 requires task.Internal == (v.Internal || (include != nil && include.Internal))                 [C08]
+//@   site (*Tasks).Set#1 requires task.Internal == (v.Internal || (include != nil && include.Internal))                 [C08,C13]
+//@   loop 1 invariant unmodified(v)
+//@   loop 2 invariant unmodified(v)
+//@   loop 3 invariant unmodified(v)
+//@   loop 4 invariant unmodified(v)
+//@   loop 5 invariant unmodified(v)
+//@   ensures unmodified(v)     -- merging writes into the copy only; the included Taskfile's own task (which other parents will copy too) stays as it was   [C08,C09,C11]
 //@   site (*Tasks).Set#1 requires include.Flatten || (task.Task == taskName && task.Namespace == include.Namespace)     [C08]
 //@   site (*Tasks).Set#1 requires include.AdvancedImport ==> varsDone      -- the include's vars reach every copy       [C08,C10]
 
